@@ -59,6 +59,8 @@ extern "C" int LLVMFuzzerTestOneInput(const uint8_t* data, size_t size)
     c.putVI("cols", cols);
     c.putVD("vals", vals);
     c.putI("nrhs", fdp.ConsumeIntegralInRange<int>(1, 3));
+    c.putI("via", fdp.ConsumeIntegralInRange<int>(0, 3));
+    c.putI("via_dn", fdp.ConsumeIntegralInRange<int>(-1, 2));
     c.putI("rhs_kind", fdp.ConsumeIntegralInRange<int>(0, 3));
     c.putU("rhs_seed", fdp.ConsumeIntegral<uint16_t>());
     fuzzJudge(c, runSparseLUCase(c));
